@@ -24,6 +24,22 @@ CLAIMS = {
         "DESIGN.md section 5 C10", TECH),
 }
 
+CLAIMS["C09"] = (
+    "Proof: 11 theorems (Props/C09.v, closed under the global context): for every recipe, request and handler "
+    "behaviour the optimised router (ExactOriginCombiner tables + LocatedRequestRouter) driven by the request bus "
+    "gives the same outcome and consults the same handlers in the same order as the linear chain of responsibility "
+    "(router_refines_linear), hence no provider twice, only matching providers, first non-declining match decides, "
+    "terminal stops, Chain.FIRST/LAST compose exactly once in the documented direction, instance recipe before class "
+    "recipes, extend() prepends; the combiner as the pinned tree had it is refuted by a vm_compute witness. Tied to "
+    "the code by correspondence through the public API (loader/bound/Chain/retorts in recipes/class recipes/extend/"
+    "replace) with every handler consultation logged, an exhaustive block of short recipes, a model-independent "
+    "linear reference, and a recursive-model chain block.",
+    "Trusted: Coq kernel, renderers, the generator's knowledge of each predicate's truth set (predicates are drawn "
+    "with a chosen truth set and rendered; C10 proves the rendering rules). Two genuine defects found by this check "
+    "were repaired in /repo (fix: commits 3ecaec6, b45df5b). Chaining on recursion stubs is checked by a direct "
+    "oracle only (not in the Coq model).",
+    "DESIGN.md section 5 C09", TECH)
+
 NOT_YET = "check not built yet in this session (DESIGN.md section 10 build order); not claimed until its model, theorems and correspondence exist"
 
 
